@@ -71,3 +71,22 @@ Definition ex_any_fwd1 : value := ex_any "https://example.com/verif.T".
 
 (* F11: verif.K{} -- an unset explicit-presence NullValue field *)
 Definition ex_k_empty : value := VMsg [] [].
+
+(* ---- a table without special-mapping types (the core of the C20 theorem): type 0 is
+   google.protobuf.Empty, so field 6 of verif.T is an Empty ---- *)
+Definition ex_schema_j : schema := [[]; ex_t_md; ex_k_md].
+Definition ex_names_j : names :=
+  mkNM (mkMN (bs "google.protobuf.Empty") 9 [] :: tl (nm_msgs ex_names)) (nm_enums ex_names).
+
+Definition ex_tj : value :=
+  VMsg [ (1, [VS (SZ (-5))]);
+         (2, [VS (SBy (bs "hi"))]);
+         (3, [VS (SN 1069547520); VS (SN 2143289344); VS (SN 4286578688); VS (SN 2147483648)]);
+         (4, [VEntry (SBy (bs "a")) (VS (SZ 1)); VEntry (SBy (bs "b")) (VS (SZ (-9223372036854775808)))]);
+         (5, [VMsg [(1, [VS (SZ 7)]); (9, [VS (SBy [xfb; xff; x00])])] [x98; x06; x01]]);
+         (6, [VMsg [] []]);
+         (7, [VS (SZ 1)]);
+         (8, [VS (SB true)]);
+         (10, [VS (SN 18446744073709551615); VS (SN 0)]);
+         (100, [VS (SN 9)]) ]
+       [xa0; x06; x01].
